@@ -517,13 +517,18 @@ class Model:
             for m in node.members:
                 self._kill_scope(m)
 
-    def add_sub(self, name, child_name, key=None):
+    def add_sub(self, name, child_name, key=None, via_structure=False):
         root = self.roots[name]
         child = self.roots[child_name]
-        collision = self.key_collision(child, True)
-        c = self.copy_tree(child, retarget={child.sid: root.sid})
-        # measurements indexed by the child's registry are indexed by the parent's afterwards
-        self._retarget(c, child.sid, root.sid)
+        if via_structure:
+            # structure.copy() added to the structure: nothing re-targets the acquisition registries
+            collision = self.key_collision(child, False)
+            c = self.copy_tree(child)
+        else:
+            collision = self.key_collision(child, True)
+            c = self.copy_tree(child, retarget={child.sid: root.sid})
+            # measurements indexed by the child's registry are indexed by the parent's afterwards
+            self._retarget(c, child.sid, root.sid)
         c.key = key
         verdict = {"ok": True}
         if collision:
